@@ -21,6 +21,8 @@
 (*        <<6, n, d>>      must equal n/d exactly (rank-type outputs)      *)
 (*        <<7, s, n1, d1, n2, d2, ...>>   must equal s*sqrt(prod ni/di)     *)
 (*        <<8, bn, bd, n1, d1, ...>>      must equal bn/bd + prod ni/di     *)
+(*        <<9, bn, bd, s, qn, qd>>        must equal bn/bd + s*sqrt(qn/qd)   *)
+(*        <<10, s>>                       must be s * infinity               *)
 (*    (7 and 8 keep large products out of TLC's 32-bit integers: the        *)
 (*     factors are handed over unmultiplied)                                *)
 (***************************************************************************)
